@@ -193,6 +193,7 @@ def r4(ctx, rule, only_page=False):
     if ap is None:
         ctx.unknown(rule, 'walk', f, 'chain walk not found')
         return
+    walk_exits(ctx, rule, prog, k, h, 'get_utxos')
     ok, why = total_under(prog, f, ap.bb, {'min_confirmations': 0})
     what = 'page' if only_page else 'unfiltered'
     ctx.check(ok, rule, ('page-walk-total' if only_page else 'unfiltered-walk-total'), ap,
